@@ -220,12 +220,44 @@ Theorem table_walk_refuted :
 Proof. exact HashProofs.table_walk_refuted. Qed.
 Print Assumptions table_walk_refuted.
 
+(* histories of one object: a Hash instance that keeps no static state (as the source's do:
+   hash_instances_stateless, string_hash_shape_ok below) returns at every call the hash of the value
+   the object has at that call — whatever its address, its earlier values, the calls before *)
+Theorem hash_depends_only_on_the_current_value : forall (calls : list hcall),
+  run_hist unit (stateless_inst (hash_data hash_m hash_r hash_seed hash_tail_shape) float_hash_shape) tt calls =
+  map (fun c => v_hash (hash_data hash_m hash_r hash_seed hash_tail_shape) float_hash_shape (hc_val c)) calls.
+Proof. exact (HashProofs.stateless_history (hash_data hash_m hash_r hash_seed hash_tail_shape) float_hash_shape). Qed.
+Print Assumptions hash_depends_only_on_the_current_value.
+
+(* ... so two calls anywhere in any two histories on eq values return the same hash *)
+Theorem eq_values_hash_equally_in_any_histories : forall (calls1 calls2 : list hcall) (i j : nat) (c1 c2 : hcall),
+  nth_error calls1 i = Some c1 -> nth_error calls2 j = Some c2 ->
+  v_wf (hc_val c1) = true -> v_wf (hc_val c2) = true ->
+  v_cmp table_cmp_by_lookup (hc_val c1) (hc_val c2) = Some 0%Z ->
+  nth_error (run_hist unit (stateless_inst (hash_data hash_m hash_r hash_seed hash_tail_shape) float_hash_shape) tt calls1) i =
+  nth_error (run_hist unit (stateless_inst (hash_data hash_m hash_r hash_seed hash_tail_shape) float_hash_shape) tt calls2) j.
+Proof. exact (HashProofs.history_eq_hash (hash_data hash_m hash_r hash_seed hash_tail_shape) table_cmp_by_lookup float_hash_shape eq_refl). Qed.
+Print Assumptions eq_values_hash_equally_in_any_histories.
+
+Example histories_of_one_object_nonvacuous :
+  nth_error (mk_hcall 4096 (VStr (72 :: 105 :: nil)%N) :: mk_hcall 4096 (VStr (72 :: nil)%N) :: nil) 1
+    = Some (mk_hcall 4096 (VStr (72 :: nil)%N)) /\ v_wf (VStr (72 :: nil)%N) = true.
+Proof. exact (conj eq_refl eq_refl). Qed.
+
+(* an instance that memoises the last hash by buffer address (seeded C16-r6-2) is refuted: the same
+   address with the value changed in place returns the old hash *)
+Theorem memoised_hash_refuted :
+  exists calls, run_hist _ (memo_inst (fun d => N.of_nat (length d)) 1) None calls
+                <> map (fun c => v_hash (fun d => N.of_nat (length d)) 1 (hc_val c)) calls.
+Proof. exact HashProofs.memo_history_refuted. Qed.
+Print Assumptions memoised_hash_refuted.
+
 (* the code shapes the model encodes are still the ones in the source (tools/genx_hash.py): loop,
    finish of hash_data (its tail in one of the two modelled shapes); Int_Hash; the five XOR folds; swap's
    dispatch; copy = alloc + assign.  Float_Hash, Float_Cmp, memswap and Table_Cmp come as shape
    parameters (float_hash_shape, float_cmp_form, memswap_plan, table_cmp_by_lookup) used above *)
 Theorem source_shapes_as_modelled :
   hash_data_shape_ok && (hash_tail_shape <=? 1) && int_hash_shape_ok && xor_fold_shape_ok
-  && swap_shape_ok && copy_shape_ok = true.
+  && swap_shape_ok && copy_shape_ok && string_hash_shape_ok && hash_instances_stateless = true.
 Proof. exact (eq_refl true). Qed.
 Print Assumptions source_shapes_as_modelled.
